@@ -18,6 +18,9 @@ AcrhEchoUnused(r) == <<>>
 
 VARIABLES l, sem, pats, bad, nPre, nYes
 vars == <<l, sem, pats, bad, nPre, nYes>>
+\* The monitor is a deterministic chain, one state per consumed event: fingerprinting the position alone (cfg: VIEW TraceView)
+\* keeps validation linear however large `bad`, the references or the block grow.
+TraceView == l
 
 Ev(e) == l <= Len(Trace) /\ Trace[l].ev = e /\ l' = l + 1
 
